@@ -469,7 +469,7 @@ def gen_mode(r, ts, tau, kind):
 # the oracle (property text; real runs and the abstract input only)
 # --------------------------------------------------------------------------
 
-def oracle_targets(ts, mode, cfg, real):
+def oracle_targets(ts, mode, cfg, real, limit=-1):
     """the nodes the endpoint was asked to describe: what the selectors denote on the abstract graph; for the
     class selectors with a LIMIT, the instances the (fake) endpoint returned to the first pass"""
     tau = cfg["tau"]
@@ -483,6 +483,9 @@ def oracle_targets(ts, mode, cfg, real):
             else:
                 T += [o[1] for s, p, o in ts if p == it[2] and (it[1] is None or s == ("I", it[1])) and o[0] == "I"]
         return set(T)
+    if limit < 0 and cfg["cap"] == -1:
+        # no LIMIT: the instances of the target classes (of every class, in all_classes_mode); blank subjects are not asked for
+        return {s[1] for s, p, o in ts if p == tau and s[0] == "I" and o[0] == "I" and (mode[0] == "all" or o[1] in mode[1])}
     first = {}
     for q, vals in real["sel_answers"]:
         first.setdefault(q, vals)
@@ -661,7 +664,7 @@ def _run_case(case):
     runs = {}
     for cache in (True, False):
         runs[cache] = run_endpoint(ts, order, mode, cfg, cache, limit, flip_repeats=case.get("flip", False))
-    T = oracle_targets(ts, mode, cfg, runs[True])
+    T = oracle_targets(ts, mode, cfg, runs[True], limit)
     limited = mode[0] != "map" and (limit >= 0 or cfg["cap"] != -1)
     local = local_T = gT = None
     note = None
@@ -669,6 +672,8 @@ def _run_case(case):
         local = run_local(ts, mode, cfg)
     elif cfg["cap"] == 0:
         local = run_local(ts, mode, cfg)           # "a positive value" caps; 0 does not (README)
+    elif any(q[0] == "other" for q in runs[True]["log"] + runs[False]["log"]):
+        note = "unrecognised_query"                # the instances the endpoint returned are not known to the oracle
     else:
         gT = restrict(ts, T, cfg["inverse_paths"])
         if cfg["cap"] > 0:
